@@ -136,9 +136,25 @@ func H_C02_Finish(v *verifrt.T) {
 		cleanSome: cleanSome,
 		chRetry:   make(chan sts.Polled, 1),
 	}
+	// the file may have been rewritten since it was hashed and sent (other
+	// size and / or time): what is on disk is then not what the receiver
+	// validated
+	replaced := v.Choose("file-rewritten-since-it-was-sent", 2) == 1
+	if replaced {
+		dsize := v.Int64("size-change")
+		dt := v.Duration("mtime-change", -time.Hour, time.Hour)
+		v.Assume(dsize >= -4)
+		v.Assume(dsize <= 4096)
+		v.Assume(verifrt.Or(dsize != 0, dt != 0))
+		src.files["a"] = &vSrcFile{name: "a", size: 5 + dsize, time: ft.Add(dt), tag: "v2"}
+	}
 	broker.finish(&vPolled{name: "a", code: code})
 	positive := code == sts.ConfirmPassed || code == sts.ConfirmWaiting
 	done := c.Get("a").IsDone()
+	if replaced {
+		v.Reach("replaced")
+		v.Assert(len(src.removed) == 0, "C02 a file rewritten since it was sent is not deleted on the strength of the old version's confirmation (no identical validated copy exists)")
+	}
 	v.Assert(done == positive, "C02.O1 a file is marked done exactly for a passed / waiting answer")
 	if len(src.removed) > 0 {
 		v.Reach("deleted")
